@@ -88,7 +88,7 @@ MARKERS = ['o', 's', 'D', 'x', '+', '*', 'v']
 
 
 def budget(tier):
-    return 40 if tier == 'quick' else 440
+    return 32 if tier == 'quick' else 440
 
 
 def shards(tier):
@@ -100,8 +100,7 @@ def required_counters(tier):
     return {'judged:count': 300 * k, 'judged:class': 800 * k, 'judged:frame': 800 * k, 'judged:coord-pixel': 500 * k,
             'judged:coord-sky': 1500 * k, 'judged:size-pixel': 200 * k, 'judged:size-sky': 500 * k, 'judged:angle': 300 * k,
             'judged:text': 300 * k, 'judged:tags': 800 * k, 'judged:include-sense': 800 * k, 'judged:include-excluded': 60 * k,
-            'judged:determinism': 300 * k, 'judged:fixed-point': 500 * k, 'judged:skip-others-unchanged': 20 * k,
-            'judged:skip-warning': 20 * k, 'lane:single': 50 * k, 'lane:list': 100 * k, 'lane:skip': 40 * k,
+            'judged:determinism': 300 * k, 'judged:fixed-point': 500 * k, 'skip:decided': 40 * k, 'lane:single': 50 * k, 'lane:list': 100 * k, 'lane:skip': 40 * k,
             'shape:ellipseannulus': 30 * k, 'shape:regularpolygon': 15 * k, 'frame:barycentricmeanecliptic': 50 * k,
             'frame:fk4': 50 * k, 'frame:image': 100 * k, 'list:hoisted-candidates': 30 * k, 'list:mixed-frames': 30 * k}
 
@@ -187,7 +186,7 @@ def coords_spec(rng, p, frame, n):
     return S.sky(S.arr_spec(np.array(lons, dtype=float)), S.arr_spec(np.array(lats, dtype=float)), frame)
 
 
-_UNIT_PER_DEG = {'deg': 1.0, 'arcmin': 60.0, 'arcsec': 3600.0, 'rad': math.pi / 180.0}
+_UNIT_PER_DEG = {'deg': 1.0, 'arcmin': 60.0, 'arcsec': 3600.0, 'rad': math.pi / 180.0, 'mas': 3.6e6, 'hourangle': 1.0 / 15.0}
 
 
 def size_v(rng, p, frame, lo_mult=2.0):
@@ -212,11 +211,15 @@ def size_v(rng, p, frame, lo_mult=2.0):
     return v
 
 
-def size_spec(rng, v, frame, unit=None):
+def size_spec(rng, v, frame, unit=None, allow32=True):
     """size value in printed unit -> spec (number for image, quantity for sky)."""
     if frame == 'image':
+        if allow32 and isinstance(v, float) and rng.random() < 0.05:
+            v32 = float(np.float32(v))
+            if v32 >= v:                      # keep the lower bound; exactly representable in float32
+                return {'np': 'float32', 'v': v32}
         return v
-    unit = unit or rng.choice(['deg', 'deg', 'arcmin', 'arcsec', 'rad'])
+    unit = unit or rng.choice(['deg', 'deg', 'deg', 'arcmin', 'arcsec', 'arcsec', 'rad', 'mas', 'hourangle'])
     return S.q(float(v) * _UNIT_PER_DEG[unit], unit, angle=rng.random() < 0.12)
 
 
@@ -226,9 +229,10 @@ def pair_inner_outer(rng, p, frame, lo_mult):
     gap = max(1.5 * lo, inner * rng.choice([1e-3, 0.01, 0.1, 0.5, 1.0, 3.0]) * rng.uniform(0.5, 1))
     if rng.random() < 0.15:
         gap = 1.5 * lo
+    gap = max(gap, 64 * EPS * inner)       # stays a strict inequality in floating point and across unit conversions
     unit = rng.choice(['deg', 'deg', 'arcmin', 'arcsec', 'rad'])
     unit2 = unit if rng.random() < 0.8 else rng.choice(['deg', 'arcmin', 'arcsec'])
-    return size_spec(rng, inner, frame, unit), size_spec(rng, inner + gap, frame, unit2)
+    return size_spec(rng, inner, frame, unit, False), size_spec(rng, inner + gap, frame, unit2, False)
 
 
 def text_v(rng):
@@ -323,7 +327,7 @@ def shape_spec(rng, p, frame, shape, meta, vis):
         if rng.random() < 0.9:
             kw['angle'] = ang()
     elif shape == 'polygon':
-        n = rng.choice([3, 3, 4, 5, 6, 8, 13])
+        n = rng.choice([3, 3, 4, 5, 6, 8, 13, 40])
         kw = dict(vertices=coords_spec(rng, p, frame, n))
         if img and rng.random() < 0.15:
             kw['origin'] = S.pix(rng.choice([10, -3.5, 0.25]), rng.choice([7, 100.0, -0.125]))
@@ -430,7 +434,7 @@ def gen_p(rng):
 
 
 def generate(rng, tier, shard, nshards):
-    total = 6400 if tier == 'quick' else 130000
+    total = 4800 if tier == 'quick' else 320000
     n = max(50, total // max(1, nshards))
     for i in range(n):
         p = gen_p(rng)
@@ -667,15 +671,20 @@ def compare_region(obs, orig, got, p, all_excluded):
         if same:
             obs.ok(1, 'text')
         else:
-            key = 'text-numeric-coerced' if (isinstance(ot, str) and floatlike(ot)) else 'text-changed'
+            # the reader turned a text that looks like a number into an int/float (e.g. '007' -> 7, 'nan' -> nan)
+            key = 'text-numeric-coerced' if (isinstance(ot, str) and floatlike(ot) and isinstance(gt, (int, float))) else 'text-changed'
             obs.violation(key, f'text {ot!r} came back as {gt!r} ({type(gt).__name__})', written=ot, read=repr(gt))
     # tags
     otag = [str(t) for t in (orig.meta.get('tag') or [])]
     gtag = got.meta.get('tag') or []
-    obs.check(isinstance(gtag, list) and list(gtag) == otag, 'tags-changed', f'tags {otag!r} came back as {gtag!r}', 'tags')
+    obs.check(isinstance(gtag, (list, tuple)) and list(gtag) == otag, 'tags-changed', f'tags {otag!r} came back as {gtag!r}', 'tags')
     # label: DS9 has no spelling for it - counted, not judged
     if 'label' in orig.meta:
-        obs.count('label-carried' if got.meta.get('label') == orig.meta['label'] else 'label-not-carried')
+        if 'label' in got.meta:
+            obs.check(got.meta['label'] == orig.meta['label'], 'label-changed',
+                      f"label {orig.meta['label']!r} came back as {got.meta['label']!r}", 'label')
+        else:
+            obs.count('label-not-carried')
     # include sense
     oinc = orig.meta.get('include', True)
     ginc = got.meta.get('include', True)
@@ -690,7 +699,8 @@ def compare_region(obs, orig, got, p, all_excluded):
             key = 'exclude-hoisted-to-global-overridden-by-line-default'
         else:
             key = 'include-sense-changed'
-        obs.violation(key, f'include={oinc!r} came back as include={ginc!r}', written=repr(oinc), read=repr(ginc),
+        back = f"include={got.meta['include']!r}" if 'include' in got.meta else 'no include entry (= included)'
+        obs.violation(key, f'include={oinc!r} came back as {back}', written=repr(oinc), read=back,
                       all_regions_excluded=all_excluded)
     return True
 
@@ -744,12 +754,12 @@ def fixed_point_keys(r1, r2, orig=None):
 
 
 def round_trip(obs, case, regs, specs):
-    """the standard pipeline on a list of expressible regions.  Returns (text, first parse)."""
+    """the standard pipeline on a list of expressible regions.  Returns (text, first parse, n warnings)."""
     p = case['p']
     pe = 8 if p is None else p
     api = case.get('api', 'regions')
     _STAGE[0] = 'serialize'
-    s1, _ = _ser(regs, api, p)
+    s1, w1 = _ser(regs, api, p)
     s1b, _ = _ser(regs, api, p)
     obs.check(isinstance(s1, str) and s1 == s1b, 'nondeterministic-serialize', 'two serialize() calls on the same regions differ',
               'determinism')
@@ -762,7 +772,7 @@ def round_trip(obs, case, regs, specs):
     _STAGE[0] = 'compare'
     if not obs.check(len(r1) == len(regs), 'region-count-changed', f'{len(regs)} regions written, {len(r1)} read back', 'count',
                      text=s1[:1500]):
-        return s1, r1
+        return s1, r1, len(w1)
     incs = [bool(r.meta.get('include', True)) for r in regs]
     all_excluded = not any(incs)
     if len(regs) > 1:
@@ -781,7 +791,7 @@ def round_trip(obs, case, regs, specs):
     _STAGE[0] = 'compare'
     if not obs.check(len(r2) == len(r1), 'fixed-point-region-count', f'second trip: {len(r1)} regions written, {len(r2)} read back',
                      'fixed-point'):
-        return s1, r1
+        return s1, r1, len(w1)
     for o, a, b in zip(regs, r1, r2):
         if not stable_regime(a, pe):
             obs.skip(1, 'fixed-point')
@@ -793,7 +803,7 @@ def round_trip(obs, case, regs, specs):
                 obs.violation(key, f'parse(ser(parse(ser(R)))) != parse(ser(R)) for {type(a).__name__} at precision {pe}',
                               first=repr(a)[:600], second=repr(b)[:600], meta1=repr(dict(a.meta)), meta2=repr(dict(b.meta)),
                               visual1=repr(dict(a.visual)), visual2=repr(dict(b.visual)))
-    return s1, r1
+    return s1, r1, len(w1)
 
 
 def run_case(case, obs):
@@ -807,7 +817,7 @@ def run_case(case, obs):
     # ---- skip lane ----
     keep = [i for i, s in enumerate(specs) if not s.get('inexpressible')]
     expr = [regs[i] for i in keep]
-    s_without, r_without = round_trip(obs, case, expr, [specs[i] for i in keep])
+    s_without, r_without, nwarn_without = round_trip(obs, case, expr, [specs[i] for i in keep])
     first_bad = next(s['inexpressible'] for s in specs if s.get('inexpressible'))
     _STAGE[0] = 'serialize'
     try:
@@ -817,12 +827,16 @@ def run_case(case, obs):
         if not _from_library(exc):
             raise
         tb = ''.join(traceback.format_exception(type(exc), exc, exc.__traceback__))
+        obs.count('skip:decided')
         obs.violation(first_bad + '-member-raises',
                       f'serialize() of a list with a {first_bad} member raised {type(exc).__name__}: {exc} '
                       f'(the {len(expr)} other regions serialise fine on their own)', traceback=tb[-1500:])
         return
+    obs.count('skip:decided')
     obs.ok(1, 'skip-no-raise')
-    obs.check(len(warns) >= 1, first_bad + '-member-no-warning', 'inexpressible member skipped without any warning', 'skip-warning')
+    # the expressible members emit the same warnings in both calls (filter 'always'), so a skip warning shows as a surplus
+    obs.check(len(warns) >= nwarn_without + 1, first_bad + '-member-no-warning',
+              f'inexpressible member skipped without a warning ({len(warns)} warnings with it, {nwarn_without} without)', 'skip-warning')
     _STAGE[0] = 'parse'
     r_with = _parse(s_with)
     _STAGE[0] = 'compare'
